@@ -11,6 +11,7 @@ from typing import TYPE_CHECKING
 from .exceptions import PestParsingError
 from .grammar import parse
 from .grammar.codegen.generate import generate_module
+from .grammar.exceptions import PestGrammarSyntaxError
 from .grammar.optimizer import DEFAULT_OPTIMIZER
 from .grammar.rule import BuiltInRule
 from .grammar.rules.ascii import ASCII_RULES
@@ -18,6 +19,8 @@ from .grammar.rules.special import EOI
 from .grammar.rules.special import SOI
 from .grammar.rules.special import Any
 from .grammar.rules.unicode import UNICODE_RULES
+from .grammar.tokens import Token
+from .grammar.tokens import TokenKind
 from .pairs import Pairs
 from .state import ParserState
 
@@ -89,15 +92,24 @@ class Parser:
         Raises:
             PestGrammarSyntaxError: If `grammar` is invalid.
         """
-        rules, doc = parse(grammar, cls.BUILTIN)
+        try:
+            rules, doc = parse(grammar, cls.BUILTIN)
 
-        # TODO: validate rules
-        # - validate_repetition
-        # - validate_choices
-        # - validate_whitespace_comment
-        # - validate_tag_silent_rules
+            # TODO: validate rules
+            # - validate_repetition
+            # - validate_choices
+            # - validate_whitespace_comment
+            # - validate_tag_silent_rules
 
-        return cls(rules, doc, optimizer=optimizer, debug=debug)
+            return cls(rules, doc, optimizer=optimizer, debug=debug)
+        except RecursionError as err:
+            # The grammar parser and the optimizer are recursive: an expression
+            # nested more deeply than the interpreter's recursion limit allows
+            # is reported as a grammar error, at the start of the text.
+            raise PestGrammarSyntaxError(
+                "expression nested too deeply",
+                token=Token(TokenKind.ERROR, "", 0, grammar),
+            ) from err
 
     def __str__(self) -> str:
         doc = "".join(f"//! {line}\n" for line in self.doc) + "\n" if self.doc else ""
